@@ -22,6 +22,9 @@ import (
 type TSpec struct {
 	K string  `json:"k"`
 	E *TSpec  `json:"e,omitempty"`
+	// KT is the key type of a "map" (nil: string). encoding/json accepts string and integer kinds and
+	// encoding.TextMarshaler types as keys (marshal.go).
+	KT *TSpec `json:"kt,omitempty"`
 	N int     `json:"n,omitempty"`
 	F []FSpec `json:"f,omitempty"`
 }
@@ -95,6 +98,9 @@ func (t *TSpec) Type() reflect.Type {
 	case "array":
 		return reflect.ArrayOf(t.N, t.E.Type())
 	case "map":
+		if t.KT != nil {
+			return reflect.MapOf(t.KT.Type(), t.E.Type())
+		}
 		return reflect.MapOf(tString, t.E.Type())
 	case "struct":
 		fields := make([]reflect.StructField, 0, len(t.F))
@@ -366,6 +372,10 @@ func cloneT(t TSpec) TSpec {
 		e := cloneT(*t.E)
 		c.E = &e
 	}
+	if t.KT != nil {
+		k := cloneT(*t.KT)
+		c.KT = &k
+	}
 	if t.F != nil {
 		c.F = make([]FSpec, len(t.F))
 		for i, f := range t.F {
@@ -409,6 +419,9 @@ func goString(t *TSpec) string {
 	case "array":
 		return fmt.Sprintf("[%d]%s", t.N, goString(t.E))
 	case "map":
+		if t.KT != nil {
+			return "map[" + goString(t.KT) + "]" + goString(t.E)
+		}
 		return "map[string]" + goString(t.E)
 	case "struct":
 		var fs []string
